@@ -574,6 +574,23 @@ Proof.
     reflexivity.
 Qed.
 
+(* everything filter::apply receives - the layer transform, the source pixmap size and the region it recomputes -
+   is unchanged by a whole-pixel root translation (unclamped layer): light sources, turbulence offsets
+   (region.x - ts.tx), primitive sub-regions are functions of exactly these *)
+Lemma filter_inputs_invariant dx dy b m t :
+  small_bbox b -> small_bbox (qshift dx dy b) -> valid_irect m ->
+  filter_layer_clamped b m = false -> filter_layer_clamped (qshift dx dy b) m = false ->
+  forall i i', layer_box b false m = LBox i -> layer_box (qshift dx dy b) false m = LBox i' ->
+  ts_eq (layer_content_ts (qshift dx dy b) i' (ts_concat (from_translate (inject_Z dx) (inject_Z dy)) t))
+        (layer_content_ts b i t) /\
+  layer_size i' = layer_size i /\
+  filter_region (qshift dx dy b) i' = filter_region b i.
+Proof.
+  intros S S' Vm C C' i i' H H'.
+  destruct (filter_region_equivariant dx dy b m S S' Vm C C' i i' H H') as [E R].
+  subst i'. split; [apply shift_ts_equivariant|]. split; [reflexivity | exact R].
+Qed.
+
 (* a nested group in a frame whose origin is 250 px left of a 100 px canvas: the same content is clamped
    away before a -20 shift and partly visible after it *)
 Lemma nested_shift_refuted :
